@@ -203,8 +203,76 @@ func C08Scenarios() []sched.Scenario {
 	for _, c := range cs {
 		out = append(out, c.scenario())
 	}
-	out = append(out, txnCommitVsSet())
+	out = append(out, txnCommitVsSet(), blockReadVsTxnCommit(false, false), blockReadVsTxnCommit(true, false), blockReadVsTxnCommit(false, true))
 	return out
+}
+
+// blockReadVsTxnCommit: on one not yet committed block B (on A, ancestors hold k=1) a transaction writes
+// (or removes) k and commits into the block while another goroutine reads k through the block (directly or
+// through its own transaction cache). The read may see the ancestor's value or the new one; once the
+// writer's commit has returned the block answers with the write, and so does the state cache after B commits.
+func blockReadVsTxnCommit(remove, viaTxn bool) sched.Scenario {
+	name := "S14-block-read-vs-txn-commit"
+	doc := "G:k=1 <- A; open block B on A: txn{Set(k,2); Commit} || BlockCache(B).Get(k)"
+	want := "2"
+	if remove {
+		name, doc, want = "S15-block-read-vs-txn-commit-removal", "G:k=1 <- A; open block B on A: txn{Remove(k); Commit} || BlockCache(B).Get(k)", "miss"
+	}
+	if viaTxn {
+		name, doc = "S16-txn-read-vs-txn-commit", "G:k=1 <- A; open block B on A: txn1{Set(k,2); Commit} || txn2.Get(k)"
+	}
+	return sched.Scenario{Name: name, Doc: doc,
+		Make: func() ([]func(), func() (string, string)) {
+			sc := statecache.NewStateCache()
+			for _, b := range base {
+				mkBlock(sc, b).Commit()
+			}
+			bc := statecache.NewBlockCache(sc, statecache.Block{Hash: "B", PrevHash: "A"})
+			tcW := statecache.NewTransactionCache(bc)
+			tcR := statecache.NewTransactionCache(bc)
+			var seen string
+			bodies := []func(){
+				func() {
+					if remove {
+						tcW.Remove("k")
+					} else {
+						tcW.Set("k", statecache.String("2"))
+					}
+					tcW.Commit()
+				},
+				func() {
+					if viaTxn {
+						seen = show(tcR.Get("k"))
+					} else {
+						seen = show(bc.Get("k"))
+					}
+				},
+			}
+			judge := func() (string, string) {
+				fail := ""
+				if seen != "1" && seen != want && seen != "miss" {
+					fail = "the concurrent read returned " + seen + "; only the ancestor's value 1, the transaction's write (" + want + ") or a miss are possible"
+				}
+				after := show(bc.Get("k"))
+				if after != want && fail == "" {
+					fail = fmt.Sprintf("after the transaction's commit into block B returned, BlockCache(B).Get(k) = %s; the block's own write is %s", after, want)
+				}
+				bc.Commit()
+				atB := show(sc.Get("k", "B"))
+				if atB != want && fail == "" {
+					fail = fmt.Sprintf("after block B was committed, lookup k@B = %s; block B wrote %s itself and nothing was evicted", atB, want)
+				}
+				child := show(statecache.NewBlockCache(sc, statecache.Block{Hash: "C", PrevHash: "B"}).Get("k"))
+				if child != want && child != "miss" && fail == "" {
+					fail = fmt.Sprintf("a child block of B reads k = %s; B's value is %s", child, want)
+				}
+				if a := show(sc.Get("k", "A")); a != "1" && a != "miss" && fail == "" {
+					fail = "lookup k@A = " + a + "; the block tree determines 1"
+				}
+				return fmt.Sprintf("seen=%s after=%s k@B=%s child=%s", seen, after, atB, child), fail
+			}
+			return bodies, judge
+		}}
 }
 
 // txnCommitVsSet: one goroutine commits a transaction cache while another still writes through it: no
